@@ -441,12 +441,26 @@ func (g *c08Gen) genOps(sysCtx bool) []hOp {
 func (g *c08Gen) otherStore(store string) string {
 	def := g.w.store(store)
 	if def.Parent != "" {
+		var sibs []string
+		for _, c := range g.w.Stores {
+			if c.Parent == def.Parent && c.Name != store {
+				sibs = append(sibs, c.Name)
+			}
+		}
+		if len(sibs) > 0 && g.r.chance(30) {
+			return sibs[g.r.intn(len(sibs))]
+		}
 		return def.Parent
 	}
+	// any child store of the root (a family may have several)
+	var kids []string
 	for _, c := range g.w.Stores {
 		if c.Parent == store {
-			return c.Name
+			kids = append(kids, c.Name)
 		}
+	}
+	if len(kids) > 0 {
+		return kids[g.r.intn(len(kids))]
 	}
 	return store
 }
